@@ -265,6 +265,50 @@ def module_part(tier, seed):
     return cases, viol
 
 
+UNION_TITLE_FAMILIES = [
+    ["Item", "item", "ITEM"], ["Item", "item", "ITEM", "iTEM"], ["A b", "a_b", "AB"], ["x", "X", "x ", "_x"],
+    ["match", "loop", "skip"], ["type", "fn", "impl", "where"], ["async", "await", "dyn", "plain"], ["Some", "None", "Ok", "Err"],
+    ["string", "String", "str"], ["2d", "3d", "d2"],
+]
+
+
+def union_part(tier):
+    """named unions of inline branches whose titles collide or are keywords: variant names (and, with helpers, the
+    constructor methods) must be distinct legal identifiers; the generator must not abort"""
+    d = vlib.scratch("C09u")
+    cases = [(fam, helpers) for fam in UNION_TITLE_FAMILIES for helpers in (True, False)]
+
+    def one(i):
+        fam, helpers = cases[i]
+        branches = [{"type": "object", "title": t, "properties": {f"p{k}": {"type": "string"}}, "required": [f"p{k}"]} for k, t in enumerate(fam)]
+        spec = {"openapi": "3.1.0", "info": {"title": "t", "version": "1"}, "paths": {}, "components": {"schemas": {"Rule": {"oneOf": branches}}}}
+        sp = os.path.join(d, f"s{i}.json")
+        json.dump(spec, open(sp, "w"))
+        out = os.path.join(d, f"o{i}.rs")
+        rc, txt = vlib.oas(["generate", "types", "-i", sp, "-o", out, "-q", "--all-schemas"] + ([] if helpers else ["--no-helpers"]))
+        return rc, txt, out
+    outs = vlib.pmap(one, range(len(cases)))
+    dumps = vlib.vtool_lines("dump", [o[2] for o in outs])
+    viol = []
+    for (fam, helpers), (rc, txt, _), dump in zip(cases, outs, dumps):
+        tag = f"union titles {fam} ({'helpers' if helpers else 'no helpers'})"
+        if rc != 0 or "error" in dump:
+            viol.append(((fam, helpers), f"{tag}: generator failed / output does not parse: rc={rc} {txt.strip()[-200:]} {dump.get('error', '')[:200]}"))
+            continue
+        en = [x for x in dump["items"] if x["kind"] == "enum" and x["name"] == "Rule"]
+        if not en:
+            viol.append(((fam, helpers), f"{tag}: enum Rule missing"))
+            continue
+        vs = [v["name"] for v in en[0]["variants"]]
+        if len(vs) != len(fam) or len(set(vs)) != len(vs):
+            viol.append(((fam, helpers), f"{tag}: variants {vs} are not {len(fam)} distinct names"))
+        for imp in [x for x in dump["items"] if x["kind"] == "impl" and not x.get("trait") and x.get("self_ty") == "Rule"]:
+            ms = [m["name"] for m in imp["methods"]]
+            if len(set(ms)) != len(ms):
+                viol.append(((fam, helpers), f"{tag}: constructor methods {ms} are not distinct"))
+    return cases, viol
+
+
 def _is_f1(props):
     """the recorded class: two properties share a Rust name b and a third property's Rust name is b_<i>"""
     import subprocess
@@ -300,11 +344,12 @@ def main(tier, seed, replay=None):
     cases, viol2, kh2 = scope_part(res, exe, tier, seed)
     known_hits |= kh2
     mcases, viol3 = module_part(tier, seed)
-    viol2 = viol2 + viol3
-    cases = cases + mcases
+    ucases, viol4 = union_part(tier)
+    viol2 = viol2 + viol3 + viol4
+    cases = cases + mcases + ucases
     res.counts.update({"evaluations": len(names) * 3 + len(cases), "distinct_nontrivial": len(names),
                        "traces_validated_against_impl": len(names) if exe else 0, "scope_cases": len(cases),
-                       "rule": f"every string over the 14-symbol alphabet up to length {3 if tier=='quick' else 5}, every keyword in 4 spellings, a hand list and random Unicode strings through the real sanitisers (compiled by #[path]) and the extracted model; legality of the implementation's results decided by the model's legal_ident; plus collision classes (pairs/triples) placed in struct-field and enum-variant scopes through the CLI"})
+                       "rule": f"every string over the 14-symbol alphabet up to length {3 if tier=='quick' else 5}, every keyword in 4 spellings, a hand list and random Unicode strings through the real sanitisers (compiled by #[path]) and the extracted model; legality of the implementation's results decided by the model's legal_ident; plus collision classes (pairs/triples) placed in struct-field and enum-variant scopes through the CLI; module-level inline type names; unions of inline branches whose titles collide three or four ways or are keywords, with and without helper constructors"})
     for n in names[1:4] + names[-2:]:
         res.sample({"name": n})
     res.cov["trusted_base"] = vlib.COMMON_TRUSTED + [
